@@ -292,6 +292,48 @@ Definition get_ep (a:app) (n:string) (dflt:endpoint) : endpoint := match aget n 
 Definition ep_with (e:endpoint) (at_:attrs) (ps:list (string * ty)) (ss:list stmt) : endpoint :=
   E (e_name e) (e_long e) (e_doc e) at_ (e_pubsub e) (e_source e) ps (e_rest e) ss.
 
+Fixpoint fold_opt {S X} (f:S -> X -> option S) (l:list X) (s:S) : option S :=
+  match l with [] => Some s | x :: r => match f s x with Some s' => fold_opt f r s' | None => None end end.
+
+(* ---- in-place tuples (EnterField with ctx.Inplace_tuple, EnterInplace_tuple / ExitInplace_tuple, ExitField):
+   `name <:` + an indented block of fields gives the parent the field  name : reference to [name]  (no context; a
+   list of it for `name(1..) <:`) and the application a type of its own, a tuple named by the dotted type path
+   (`T.name`, `T.name.inner`, ...) that holds the nested fields; nested references get the type path as context.
+   The nested names leave the listener's name stack (s.fieldname) when the block ends. *)
+Definition tuple_field (n:string) (array:bool) : ty :=
+  let t := Ty (KRef None (Sc [] [n])) false [] [] "" in
+  if array then Ty (KList t) false [] [] "" else t.
+Definition dotted (path:list string) : string := join "." path.      (* PathStack.Get *)
+
+(* one nested field at type path `path`: (the fields of the enclosing tuple, the application's types) *)
+Fixpoint ntuple (ap path:list string) (x:nfield) (acc:list (string * ty) * list (string * ty)) {struct x}
+  : option (list (string * ty) * list (string * ty)) :=
+  match x with
+  | NField f => match dfield ap path f with Some t => Some (aset (fd_name f) t (fst acc), snd acc) | None => None end
+  | NTuple n arr fs =>
+      match (fix go (l:list nfield) (st:list (string * ty) * list (string * ty)) {struct l} :=
+               match l with
+               | [] => Some st
+               | y :: r => match ntuple ap (path ++ [n]) y st with Some st' => go r st' | None => None end
+               end) fs ([], snd acc) with
+      | Some (nf, ts) => Some (aset n (tuple_field n arr) (fst acc), aset (dotted (path ++ [n])) (Ty (KTuple nf) false [] [] "") ts)
+      | None => None
+      end
+  end.
+(* what the field leaves on the listener's name stack (s.fieldname, read by ExitTable for the key): its own name -
+   ExitInplace_tuple cuts the nested names off again (fixes/C02-10) *)
+Definition nnames (x:nfield) : list string :=
+  match x with
+  | NField f => [fd_name f]
+  | NTuple n _ _ => [n]
+  end.
+(* the types the in-place tuples of one !type / !table block add to the application *)
+Definition item_ntypes (ap:list string) (tn:string) (ts:list (string * ty)) (i:titem) : option (list (string * ty)) :=
+  match i with
+  | TTuple n arr fs => match ntuple ap [tn] (NTuple n arr fs) ([], ts) with Some (_, ts') => Some ts' | None => None end
+  | _ => Some ts
+  end.
+
 (* fields and annotations of one !type / !table block, in source order *)
 Fixpoint ditems (ap:list string) (tn:string) (items:list titem) (fields:list (string * ty)) (at_:attrs) (names:list string)
   : option (list (string * ty) * attrs * list string) :=
@@ -302,6 +344,7 @@ Fixpoint ditems (ap:list string) (tn:string) (items:list titem) (fields:list (st
                      | None => None
                      end
   | TAnno a :: r => ditems ap tn r fields (add_anno at_ a) names
+  | TTuple n arr fs :: r => ditems ap tn r (aset n (tuple_field n arr) fields) at_ (names ++ nnames (NTuple n arr fs))
   end.
 
 Definition ty_attrs (t:ty) : attrs := match t with Ty _ _ _ a _ => a | TyNil => [] end.
@@ -330,14 +373,14 @@ Definition dtable (ap:list string) (a:app) (table:bool) (n:string) (es:list entr
     | None => (table, true, [], [], [])
     end in
   let at1 := match es with [] => at0 | _ => tdef_merge (make_attrs es) at0 end in
-  match ditems ap n items fields0 at1 [] with
-  | None => None
-  | Some (fields, at2, names) =>
+  match fold_opt (item_ntypes ap n) items (a_types a), ditems ap n items fields0 at1 [] with
+  | Some ts, Some (fields, at2, names) =>
       let pk := add_pks fields names pk0 in
       let k := if whatever then KUnset
                else if negb known then match existing with Some (Ty k0 _ _ _ _) => k0 | _ => KUnset end
                else if isrel then KRel fields pk else KTuple fields in
-      Some (put_type a n (Ty k false [] at2 ""))
+      Some (put_type (set_types a ts) n (Ty k false [] at2 ""))
+  | _, _ => None
   end.
 
 Definition denum (a:app) (n:string) (es:list entry) (annos:list anno) (items:list (string * Z)) : app :=
@@ -710,9 +753,6 @@ Fixpoint insert_sorted (x:string) (l:list string) : list string :=
   | y :: r => if String.leb x y then x :: l else y :: insert_sorted x r
   end.
 Definition sort_strings (l:list string) : list string := fold_right insert_sorted [] l.
-
-Fixpoint fold_opt {S X} (f:S -> X -> option S) (l:list X) (s:S) : option S :=
-  match l with [] => Some s | x :: r => match f s x with Some s' => fold_opt f r s' | None => None end end.
 
 Definition post (m:module) : option module := fold_opt post_app (sort_strings (keys m)) m.
 
